@@ -88,6 +88,10 @@ func parseRFC3339TimeUTC(s string) (time.Time, bool) {
 		return time.Time{}, false
 	}
 
+	if time.Date(year, time.Month(month), day, 0, 0, 0, 0, time.UTC).Day() != day {
+		// a day that the month does not have, e.g. February 31; time.Date would silently move it into the next month
+		return time.Time{}, false
+	}
 	t := time.Date(year, time.Month(month), day, hour, minute, second, nanos, time.UTC)
 	if tzOffsetSeconds != 0 {
 		t = t.Add(time.Second * time.Duration(tzOffsetSeconds))
